@@ -44,11 +44,12 @@ def draw_config(rng, mode="bounded", allow_restart=False, faults=True):
          "finish": rng.choice([1, 3]), "yield": rng.choice([0, 0, 1])}
     opt = {"kill": [0, 1, 2], "disconnect": [0, 1, 3], "reconnect": [0, 1], "wait": [0, 1, 2],
            "addwait": [0, 0, 1], "setinfo": [0, 1], "info": [0, 1, 2], "stats": [0, 1],
-           "adv": [0, 1, 2], "tick": [0, 1, 2], "jump": [0, 1], "restart": [0, 0, 1], "drop": [0, 0, 1]}
+           "adv": [0, 1, 2], "tick": [0, 1, 2], "jump": [0, 1], "restart": [0, 0, 1], "drop": [0, 0, 1],
+           "reset": [0, 0, 1, 2]}
     for k, choices in opt.items():
         w[k] = rng.choice(choices)
     if not faults:
-        for k in ("disconnect", "reconnect", "tick", "jump", "restart", "kill"):
+        for k in ("disconnect", "reconnect", "tick", "jump", "restart", "kill", "reset"):
             w[k] = 0
     if not allow_restart:
         w["restart"] = 0
@@ -127,6 +128,18 @@ class QsRun:
                     self.fault("disconnect-while-holding")
                 if waiting:
                     self.fault("disconnect-while-waiting")
+        elif op == "reset":
+            name = st[1]
+            cid = sim.cid(name)
+            holding = any(j.state == "h" and j.holder == cid for j in model.jobs.values())
+            ok = sim.reset(name)
+            if ok:
+                self._inject(("rst", name))
+                self.fault("connection-reset")
+                if holding:
+                    self.fault("connection-reset-while-holding")
+                if sim.conns[name].outstanding is not None:
+                    self.fault("connection-reset-with-request-in-flight")
         elif op == "send":
             ok = sim.send(st[1], st[2], st[3])
             if ok:
@@ -212,6 +225,7 @@ class QsRun:
                 w[k] = 0
         if not live:
             w["disconnect"] = 0
+            w["reset"] = 0
         if not deadc:
             w["reconnect"] = 0
         if self._events_in_quantum == 0:
@@ -229,12 +243,12 @@ class QsRun:
         j = next(iter(sorted(model.inflight_possible, key=lambda j: j.serial)))
         opts = ["add", "tick"]
         if blocked:
-            opts += ["disconnect", "disconnect"]
+            opts += ["disconnect", "disconnect", "reset"]
         if self._sendable(c.clients + c.workers):
             opts += ["kill", "add"]
         k = rng.choice(opts)
-        if k == "disconnect":
-            return ["disconnect", rng.choice(sorted(blocked))]
+        if k in ("disconnect", "reset"):
+            return [k, rng.choice(sorted(blocked))]
         if k == "kill":
             return ["send", rng.choice(self._sendable(c.clients + c.workers)), "qkill", {"jobids": [j.jobid]}]
         if k == "tick":
@@ -357,6 +371,10 @@ class QsRun:
         if hot and rng.random() < 0.75:
             return ["disconnect", rng.choice(sorted(hot))]
         return ["disconnect", rng.choice(live)]
+
+    def g_reset(self, sendable, live, deadc):
+        st = self.g_disconnect(sendable, live, deadc)
+        return ["reset", st[1]]
 
     def g_reconnect(self, sendable, live, deadc):
         return ["connect", self.rng.choice(deadc)]
